@@ -1001,6 +1001,18 @@ func (e *Exec) rangeIter(fr *frame, x Value) Value {
 					it.entries[i], it.entries[j] = it.entries[j], it.entries[i]
 				}
 			}
+			if e.eng.conf.MapRotate && e.eng.conf.Concrete == nil && !e.templateMode && e.mergeDepth == 0 {
+				var live []*mapEntry
+				for _, en := range it.entries {
+					if !en.deleted {
+						live = append(live, en)
+					}
+				}
+				if len(live) > 1 {
+					r := int(e.choice(0, int64(len(live)-1)))
+					it.entries = append(append([]*mapEntry{}, live[r:]...), live[:r]...)
+				}
+			}
 		}
 		return it
 	}
